@@ -64,8 +64,10 @@ arr_real FIRRateConverter::process(const arr_real& in) {
 }
 
 int FIRRateConverter::delay() const noexcept {
-    //TODO: must be N/2
-    return sublen_ / 2 + 1;
+    //group delay of the prototype filter is N/2 samples at the interpolated rate (N = sublen * interp),
+    //output samples are taken at phase (decim - 1) of the interpolated sequence
+    const int n2 = (sublen_ * interp_) / 2 - (decim_ - 1);
+    return (n2 <= 0) ? 0 : (2 * n2 + decim_) / (2 * decim_);   //nearest number of output samples
 }
 
 int FIRRateConverter::interp_rate() const noexcept {
